@@ -98,6 +98,7 @@ struct DeflateSession {
         uint64_t fill = 0, regs = 0;
         int place = 0;
         bool rel = true, dangling = false, recycle = false, contig = false;
+        std::vector<uint8_t> lead_in;
         Slot *s_all = nullptr; // contiguous mode: the whole input in one mapping, chunks are consecutive slices of it
         RefInflate ref;
         size_t eff_dict_len = 0;
@@ -116,6 +117,17 @@ struct DeflateSession {
                 avoid_f2 = avoiding(plan, "F2");
                 avoid_f4 = avoiding(plan, "F4");
                 data = make_data(plan.at("data"));
+                // contiguous mode with a lead-in: the stream starts `lead` bytes into the caller's (periodic) array, so the memory just
+                // before the first input byte is readable and equals what follows - a match reaching before the start of the stream
+                // then yields an undecodable stream instead of a fault
+                lead_in.clear();
+                if (plan.at("mem").geti("contig")) {
+                        size_t lead = (size_t) ((uint64_t) plan.at("mem").geti("lead") % 65537);
+                        if (lead && data.size() > lead) {
+                                lead_in.assign(data.begin(), data.begin() + lead);
+                                data.erase(data.begin(), data.begin() + lead);
+                        }
+                }
                 level = (int) ((uint64_t) plan.geti("level") % 4);
                 wrap = (int) ((uint64_t) plan.geti("wrap") % 5);
                 hb = (int) plan.geti("hb");
@@ -279,12 +291,15 @@ struct DeflateSession {
                         // and (for periodic data) equal to what follows, so a match reaching behind a flush point decodes to a wrong
                         // suffix instead of faulting
                         if (!s_all) {
-                                s_all = g_arena.alloc(data.size(), place, "in_whole", 0, 1);
+                                s_all = g_arena.alloc(lead_in.size() + data.size(), place, "in_whole", 0, 1);
                                 if (!s_all)
                                         return budget();
-                                memcpy(s_all->data, data.data(), data.size());
+                                memcpy(s_all->data, lead_in.data(), lead_in.size());
+                                memcpy(s_all->data + lead_in.size(), data.data(), data.size());
+                                if (!lead_in.empty())
+                                        COUNT("mem.contiguous_input_with_lead_in");
                         }
-                        st->next_in = s_all->data + (fed - pending);
+                        st->next_in = s_all->data + lead_in.size() + (fed - pending);
                         st->avail_in = pending + feed;
                         fed += feed;
                         if (feed)
@@ -401,9 +416,11 @@ struct DeflateSession {
                                 COUNT("mem.release_on_consume");
                         }
                 }
-                // ---- progress (tail only; see DESIGN §6 C07)
-                if (in_tail && consumed == 0 && produced == 0 && st_after != ZSTATE_END && st_after == st_before) {
-                        // suspected; confirmed only if the whole state is byte-identical across one more identical call
+                // ---- progress (see DESIGN §6 C07): any call made with end_of_stream set, every input byte already handed over and a
+                // non-empty output buffer that neither consumes nor produces is suspect; it is a verdict only if the whole state is
+                // byte-identical across one more identical call (in the tail that is the next tail call; elsewhere one is issued now)
+                bool stalled = (in_tail || (eos && fed == data.size() && st->avail_in == 0 && out > 0)) && consumed == 0 && produced == 0 && st_after != ZSTATE_END && st_after == st_before;
+                if (stalled) {
                         uint64_t hc = state_hash();
                         if (suspect && hc == suspect_hash) {
                                 rr.fail("C10.stuck", strf("two consecutive calls (%u) with all input offered, EOS set and %u bytes of output space left the whole stream state byte-identical in state %d: with this buffer size the end state is never reached", calls, out, st_after));
@@ -411,7 +428,15 @@ struct DeflateSession {
                         }
                         suspect = true;
                         suspect_hash = hc;
-                        COUNT("probe.no_progress_tail_call");
+                        COUNT(in_tail ? "probe.no_progress_tail_call" : "probe.no_progress_eos_call");
+                        if (!in_tail && !probing) {
+                                probing = true;
+                                bool ok = call(0, out, flush, want_eos, flags & 48, false);
+                                probing = false;
+                                suspect = false;
+                                if (!ok)
+                                        return false;
+                        }
                 } else
                         suspect = false;
                 // ---- flush point oracles (C14)
@@ -422,7 +447,7 @@ struct DeflateSession {
                 return true;
         }
 
-        bool suspect = false;
+        bool suspect = false, probing = false;
         uint64_t suspect_hash = 0;
         uint64_t state_hash()
         {
@@ -502,6 +527,12 @@ struct DeflateSession {
                 }
                 if (s == REF_ERR_TRAILER && data_ok) {
                         rr.fail("C11.trailer", strf("trailer stored %08x/%u, reference checksum of the %zu decoded bytes differs (wrap %d)", ref.trailer_crc, ref.trailer_isize, ref.out.size(), wrap));
+                        return;
+                }
+                if (s == REF_ERR_DIST && !eff_dict) {
+                        // C17: "none reaches before the first byte of the stream"; equally a stream that does not decode to its input (C07)
+                        rr.fail("C17.before_start", strf("a match in the produced stream reaches before the first byte of the stream (reference decoder: %s at bit %llu of %zu output bytes, %zu bytes decoded so far)", ref_status_name(s), (unsigned long long) ref.err_bit, n, ref.out.size()));
+                        rr.alt = "C07";
                         return;
                 }
                 if (s != REF_DONE && s != REF_ERR_TRAILER) {
@@ -787,7 +818,7 @@ static Json gen_deflate(Rng &r0, const std::string &focus, int tier)
         bool recycle = (focus == "C07" || focus == "C05") && rmem.chance(1, 8);
         mem.set("rel", (int) !rmem.chance(1, 10)).set("place", (int) rmem.below(2)).set("fill", rmem.u64() >> 24).set("dangling", (int) rmem.below(2)).set("recycle", (int) recycle).set("regs", rmem.chance(1, 4) ? 0 : rmem.u64() >> 24).set("skip", rmem.chance(1, 2) ? 0 : (int) rmem.below(4096));
         // contiguous periodic input (period = the window): a match that reaches behind a completed full flush finds equal bytes there
-        if ((focus == "C14" || focus == "C07") && r.chance(1, focus == "C14" ? 6 : 20)) {
+        if ((focus == "C14" || focus == "C07" || focus == "C17") && r.chance(1, focus == "C07" ? 20 : 6)) {
                 int w = eff_hist_bits(hb);
                 Json d2 = Json::obj();
                 uint64_t per = r.chance(1, 2) ? 32768 : 1ull << w;
@@ -795,7 +826,7 @@ static Json gen_deflate(Rng &r0, const std::string &focus, int tier)
                 data = d2;
                 n = (uint64_t) data.geti("n");
                 p.set("data", data);
-                mem.set("contig", 1);
+                mem.set("contig", 1).set("lead", r.chance(1, 2) ? (int64_t) per : 0);
         }
         p.set("mem", mem);
         // ---- call history
@@ -806,6 +837,15 @@ static Json gen_deflate(Rng &r0, const std::string &focus, int tier)
         uint32_t nops = (uint32_t) rio.below(starve ? 200 : 60);
         Json ops = Json::arr();
         uint64_t planned = 0;
+        if (rio.chance(1, focus == "C17" ? 4 : 8)) {
+                // the same perturbation at the very start of the stream: a call without input that only writes the stream / block
+                // header, then the first data while the output is starved
+                Json o2 = Json::arr(), o3 = Json::arr();
+                o2.push(0).push(0).push(rio.chance(1, 2) ? 400 : (uint32_t) rio.below(300)).push(0).push(0).push(0); // 400: room for a whole default block header
+                o3.push(0).push(gen_chunk(rio, im, big)).push((uint32_t) rio.below(9)).push(0).push(0).push(0);
+                ops.push(o2);
+                ops.push(o3);
+        }
         for (uint32_t i = 0; i < nops; i++) {
                 if (rio.chance(1, focus == "C17" ? 12 : 40)) {
                         Json o = Json::arr();
@@ -842,7 +882,7 @@ static Json gen_deflate(Rng &r0, const std::string &focus, int tier)
                         // opens the next block, then data arriving while the output is starved
                         Json o1 = Json::arr(), o2 = Json::arr(), o3 = Json::arr();
                         o1.push(0).push(0).push(big + big / 4 + 64).push(flush).push(0).push(0);
-                        o2.push(0).push(rio.chance(1, 2) ? 0 : (uint32_t) rio.below(20)).push(rio.chance(1, 2) ? 64 : (uint32_t) rio.below(300)).push(0).push(0).push(0);
+                        o2.push(0).push(rio.chance(1, 2) ? 0 : (uint32_t) rio.below(20)).push(rio.chance(1, 2) ? 400 : (uint32_t) rio.below(300)).push(0).push(0).push(0);
                         o3.push(0).push(gen_chunk(rio, im, big)).push((uint32_t) (1 + rio.below(16))).push(0).push(eosf).push(0);
                         ops.push(o1);
                         ops.push(o2);
@@ -875,6 +915,12 @@ static Json gen_deflate(Rng &r0, const std::string &focus, int tier)
                         ops.push(o);
                 }
         }
+        if (focus == "C10" && rio.chance(1, 3)) {
+                // the stream is closed while a flush requested just before is still pending and output stays scarce
+                Json o = Json::arr();
+                o.push(0).push(rio.chance(1, 2) ? 0 : gen_chunk(rio, im, big)).push((uint32_t) (1 + rio.below(16))).push((int) (1 + rio.below(2))).push(0).push(0);
+                ops.push(o);
+        }
         p.set("ops", ops);
         Json tl = Json::arr();
         uint32_t tin = rio.chance(1, 2) ? 0 : gen_chunk(rio, im, big);
@@ -882,7 +928,7 @@ static Json gen_deflate(Rng &r0, const std::string &focus, int tier)
                 tin += 30000;
         uint32_t tout;
         if (focus == "C10" && starve)
-                tout = (uint32_t) (1 + rio.below(rio.chance(1, 2) ? 1 : 9));
+                tout = (uint32_t) (1 + rio.below(rio.chance(1, 3) ? 1 : 16));
         else
                 tout = rio.chance(1, 2) ? (uint32_t) (big + big / 2 + 1024) : std::max<uint32_t>(1, gen_chunk(rio, om, big + 1024));
         if (bigchunk && tout < 4096)
